@@ -437,6 +437,15 @@ def u_methods(ctx, index):
   else:
     factor = ctx.fresh(z3.RealSort(), 'factor')
     ctx.assume(z3.And(factor >= 0, factor <= 1))
+    cap = {}
+
+    def sorted_hook(ip2, v, kw):
+      from pyvc.builtins import sorted_symseq
+      if isinstance(v, SymSeq) and not kw:
+        cap['sorted'] = sorted_symseq(ip2, v, None, False)
+        return cap['sorted']
+      return NotImplemented
+    ip.ext['sorted'] = sorted_hook
     f = ip.run(RULES + ':percentile', [factor])
     r = ip.call(f, [vals])
     ctx.cover('methods/percentile')
@@ -448,6 +457,12 @@ def u_methods(ctx, index):
     lo, hi = z3.ToInt(rank), -z3.ToInt(-rank)
     # r is values_sorted[lo] when the rank is integral, else the linear interpolation
     ctx.check('C08/methods/percentile/rank_in_range', z3.And(0 <= lo, hi <= n - 1))
+    S = cap.get('sorted')
+    ctx.check('C08/methods/percentile/sorts_the_values', z3.BoolVal(S is not None))
+    if S is not None and z3.is_expr(r):
+      St = S.term
+      want = z3.If(lo == hi, St[lo], St[lo] * (z3.ToReal(hi) - rank) + St[hi] * (rank - z3.ToReal(lo)))
+      ctx.check('C08/methods/percentile/order_statistic_or_linear_interpolation', r == want)
 
 
 def build():
